@@ -50,3 +50,18 @@ func VerifHarness_C02_ChildrenAndDescendants() {
 	verifrt.Assert(err3 == nil && len(none) == 0, "primitives-have-no-children")
 	verifrt.Reach("end")
 }
+
+// C02: descendants() of an element that holds a narrative - every resource may - yields the narrative's status and
+// div: xhtml is a primitive like the others, its value the text of the div.
+func VerifHarness_C02_DescendantsOfANarrative() {
+	t := verifFullTable()
+	div := &dtpb.Xhtml{Value: "<div>" + verifrt.NondetString("text", 1) + "</div>"}
+	narrative := &dtpb.Narrative{Div: div}
+	got, err := t["children"].Func(verifCtx(), system.Collection{narrative})
+	verifrt.Assert(err == nil && len(got) == 1 && got[0] == any(div), "the-div-is-the-child-of-the-narrative")
+	all, err2 := t["descendants"].Func(verifCtx(), system.Collection{narrative})
+	verifrt.Assert(err2 == nil && len(all) == 1, "descendants-of-a-narrative-are-its-div")
+	v, err3 := system.From(div)
+	verifrt.Assert(err3 == nil && v == system.String(div.Value), "the-value-of-xhtml-is-its-text")
+	verifrt.Reach("end")
+}
